@@ -202,8 +202,12 @@ def consts_or_fields(db, cls):
     return out
 
 
+SEARCHES = {'find', 'rfind', 'find_first_of', 'find_last_of', 'find_first_not_of', 'find_last_not_of', 'search', 'find_if', 'find_end', 'strchr', 'strrchr', 'strstr', 'memchr',
+            'strpbrk', 'strcspn', 'strspn', 'strtok'}
+
+
 def check_parse_error_base(db):
-    probs = []; found = 0
+    probs = []; found = 0; found_acc = set()
     for f in db.order:
         if f['q'] == T + 'parse_error_base::parse_error_base' and f.get('ctor'):
             found += 1
@@ -213,12 +217,19 @@ def check_parse_error_base(db):
             names = [p['n'] for p in f['params']]
             if lv != [('ref', names[1]), ('str', ': '), ('ref', names[0])]:
                 probs.append('what() is composed from %s, expected position + ": " + message' % lv)
+        if f['q'] in (T + 'parse_error_base::message', T + 'parse_error_base::position_string'):
+            # the two parts of what() are told apart by what was stored when the error was made, not by looking for a separator in the text:
+            # the source name is arbitrary text (a file name, "stdin: chunk 2") and may contain any separator
+            found_acc.add(f['n'])
+            for c in walk(f.get('body'), lambda n: n.get('k') == 'call' and (n.get('cn') or '') in SEARCHES, []):
+                probs.append('%s() splits what() by searching (%s): a source name that contains the separator moves the split, so message() no longer is the message the error was made with' % (f['n'], c.get('cn')))
         if f['q'] == T + 'operator<<' and f['params'] and 'position' in f['params'][-1]['t']:
             found += 1
             rets = walk(f.get('body'), lambda n: n.get('k') == 'Return', [])
             lv = [x for x in leaves(rets[0]['e']) if x[0] in ('member', 'lit')] if rets else []
             if lv != [('member', 'source'), ('lit', 58), ('member', 'line'), ('lit', 58), ('member', 'column')]:
                 probs.append('a position is streamed as %s, expected source \':\' line \':\' column' % lv)
+    check_parse_error_base.accessors = found_acc
     return probs, found
 
 
